@@ -177,52 +177,52 @@ def r12_2(ctx):
     flags = {k for k, vs in asg_vals.items() if all(isinstance(v, ast.Constant) and isinstance(v.value, bool) for v in vs)}
     # only the statements of the body; alias loop taken 0/1 times does not matter for the decision
     paths = Enumerator(on_stmt).run(loop.body, Path())
-    table: List[Tuple[Dict[str, bool], str]] = []
+    # every test on a path is a boolean formula over five leaves: W (would be written), O (no old value), B (bool type),
+    # N (value is "n"), E (value equals the old value) - evaluated, not pattern-matched, so and/or/not may be nested at will
+    leaf = {f"{sym}._write_to_conf": ("W", True), f"{sym}._old_val is None": ("O", True), f"{sym}._old_val is not None": ("O", False),
+            f"{val} == {sym}._old_val": ("E", True), f"{sym}._old_val == {val}": ("E", True),
+            f"{val} != {sym}._old_val": ("E", False), f"{sym}._old_val != {val}": ("E", False),
+            f"{sym}.orig_type is BOOL": ("B", True), f"{sym}.orig_type == BOOL": ("B", True),
+            f"{sym}.orig_type is not BOOL": ("B", False), f"{sym}.orig_type != BOOL": ("B", False),
+            f"{val} == 'n'": ("N", True), f"{val} != 'n'": ("N", False)}
+
+    def ev(node, v):
+        if isinstance(node, ast.BoolOp):
+            vals_ = [ev(x, v) for x in node.values]
+            return all(vals_) if isinstance(node.op, ast.And) else any(vals_)
+        if isinstance(node, ast.UnaryOp) and isinstance(node.op, ast.Not):
+            return not ev(node.operand, v)
+        t = ast.unparse(node).replace('"', "'")
+        if t not in leaf:
+            raise AnalysisError(f"sync_deps loop: test `{t}` is not expressible over W/O/B/N/E")
+        a_, pos = leaf[t]
+        return v[a_] if pos else not v[a_]
+
+    table: List[Tuple[List[Tuple[ast.AST, bool]], str]] = []
     for p, status in paths:
-        asg: Dict[str, bool] = {}
+        conds = []
         for c, pol, ln, node in p.conds:
             if "_deprecated_options" in c:
                 continue
             base = node.operand if isinstance(node, ast.UnaryOp) and isinstance(node.op, ast.Not) else node
             if isinstance(base, ast.Name) and base.id in flags:
                 continue  # a boolean flag set from the tests above: the enumerator has already pruned the infeasible arm
-            at = _atoms_of(node, sym, val)
-            if at is None:
-                raise AnalysisError(f"sync_deps loop: test `{c}` is not expressible over the atoms W/O/Bn/E")
-            if pol:
-                for a, v in at:
-                    asg[a] = v
-            elif len(at) == 1:
-                asg[at[0][0]] = not at[0][1]
-            elif any(not v for _, v in at):
-                raise AnalysisError(f"sync_deps loop: negated conjunction with negative atoms in `{c}`")
-            else:
-                asg["~" + "&".join(a for a, _ in at)] = True  # negated conjunction kept symbolically
+            conds.append((node, pol))
         outcome = "touch" if any(e[0] == "TOUCH" for e in p.events) else "skip"
-        table.append((asg, outcome))
+        table.append((conds, outcome))
     bad = []
     n_val = 0
-    for W, O, Bn, E in itertools.product((True, False), repeat=4):
+    for W, O, B, N, E in itertools.product((True, False), repeat=5):
         if O and E:
             continue  # a str value never equals a missing old value
-        if Bn and E:
+        if B and N and E:
             continue  # "n" is never recorded for a bool
         n_val += 1
-        v = {"W": W, "O": O, "Bn": Bn, "E": E}
-        match = []
-        for asg, outcome in table:
-            ok = True
-            for k, want in asg.items():
-                if k.startswith("~"):
-                    if all(v[a] for a in k[1:].split("&")):
-                        ok = False
-                elif v[k] != want:
-                    ok = False
-            if ok:
-                match.append(outcome)
+        v = {"W": W, "O": O, "B": B, "N": N, "E": E, "Bn": B and N}
+        match = [outcome for conds, outcome in table if all(ev(node, v) == pol for node, pol in conds)]
         if len(set(match)) != 1:
             raise AnalysisError(f"decision table: valuation {v} matches outcomes {match}")
-        new_recorded = W and not Bn
+        new_recorded = W and not (B and N)
         spec = "touch" if ((new_recorded and not E) or (not new_recorded and not O)) else "skip"
         if match[0] != spec:
             bad.append((v, match[0], spec))
